@@ -26,11 +26,12 @@ NOT_COVERED = ['that encoder and decoder payload symbol sequences mirror each ot
 ASSUMPTIONS = _c05.ASSUMPTIONS
 TRUSTED = _c05.TRUSTED
 REQUIRED_THEOREMS = ['OpusProps.C02.' + t for t in ('genToc_roundtrip', 'lowBudget_valid', 'no_internal_error',
-                                                    'encode_wellformed_partial')]
-UNPROVED = ['encode_wellformed in full (the full statement is a comment block in OpusProps/C02.lean): missing are (1) the '
-            'repacketiser contract header + frames + zero padding parse back to the frame list (CBR padding, multi-frame, padded '
-            'ToC-only packets), (2) count x samples_per_frame(ToC) = frame_size along the decision chain; both are covered by the '
-            'tie (exact header bytes) and the search (opus_packet_parse / get_nb_samples on every packet) only',
+                                                    'repack_output_parses', 'encode_wellformed_partial')]
+UNPROVED = ['encode_wellformed in full (the full statement is a comment block in OpusProps/C02.lean): proved are the return range, the '
+            'code-0 parse and repack_output_parses (every header the repacketiser contract emits parses back to the frame list); '
+            'missing is the bookkeeping that carries pkt.hdr/pkt.lens through the four return paths of encodeNative and the '
+            'duration equation count x samples_per_frame(ToC) = frame_size along the decision chain; both are covered by the tie '
+            '(exact header bytes and frame lengths) and the search (opus_packet_parse / get_nb_samples on every packet) only',
             'redundancy_mirror (P1)',
             'lowBudget_valid for the CBR-padded ToC-only packet is covered by encode_wellformed through the repacketiser '
             'contract; the statement proved by exhaustive kernel evaluation is about the unpadded packet']
